@@ -1,0 +1,110 @@
+//go:build verif
+
+package mkvs
+
+import (
+	"github.com/oasisprotocol/oasis-core/go/storage/mkvs/node"
+)
+
+// VerifCacheInfo is a read-only snapshot of the in-memory cache of a tree for the verification
+// harness. It exists only under the "verif" build tag. Taking it dereferences nothing and does not
+// touch the LRU lists.
+type VerifCacheInfo struct {
+	// NodeCount and NodeCapacity are the number of internal nodes on the LRU list and its bound.
+	NodeCount, NodeCapacity uint64
+	// ValueSize and ValueCapacity are the bytes of leaf nodes on the LRU list and its bound.
+	ValueSize, ValueCapacity uint64
+	// DeadDirty is the number of dirty pointers without a node among the in-memory nodes
+	// reachable from the pending root.
+	DeadDirty int
+	// DirtyEvictableLeaf is the number of dirty in-memory internal nodes whose embedded leaf
+	// pointer is clean and either individually evictable (on the leaf LRU list) or already
+	// evicted (no node).
+	DirtyEvictableLeaf int
+	// EvictableLeaf is the same count over all in-memory internal nodes, clean or dirty.
+	EvictableLeaf int
+}
+
+func verifEvictableLeaf(n *node.InternalNode) bool {
+	l := n.LeafNode
+	return l != nil && l.Clean && (l.LRU != nil || l.Node == nil)
+}
+
+// VerifCacheProbe returns a snapshot of the tree's cache.
+func VerifCacheProbe(tr Tree) VerifCacheInfo {
+	t, ok := tr.(*tree)
+	if !ok || t.cache == nil {
+		return VerifCacheInfo{}
+	}
+	t.cache.Lock()
+	defer t.cache.Unlock()
+
+	c := t.cache
+	info := VerifCacheInfo{
+		NodeCount:     c.internalNodeCount,
+		NodeCapacity:  c.nodeCapacity,
+		ValueSize:     c.valueSize,
+		ValueCapacity: c.valueCapacity,
+	}
+	var walk func(p *node.Pointer)
+	walk = func(p *node.Pointer) {
+		if p == nil {
+			return
+		}
+		if p.Node == nil {
+			if !p.Clean {
+				info.DeadDirty++
+			}
+			return
+		}
+		if n, ok := p.Node.(*node.InternalNode); ok {
+			if verifEvictableLeaf(n) {
+				info.EvictableLeaf++
+				if !p.Clean {
+					info.DirtyEvictableLeaf++
+				}
+			}
+			walk(n.LeafNode)
+			walk(n.Left)
+			walk(n.Right)
+		}
+	}
+	walk(c.pendingRoot)
+	return info
+}
+
+// VerifRemovePathProbe follows the descent of doRemove for the key through the nodes that are in
+// memory (without dereferencing) and reports whether an internal node on that path has an embedded
+// clean leaf that is individually evictable or already evicted.
+func VerifRemovePathProbe(tr Tree, key []byte) bool {
+	t, ok := tr.(*tree)
+	if !ok || t.cache == nil {
+		return false
+	}
+	t.cache.Lock()
+	defer t.cache.Unlock()
+
+	k := node.Key(key)
+	p := t.cache.pendingRoot
+	var bitDepth node.Depth
+	for p != nil && p.Node != nil {
+		n, ok := p.Node.(*node.InternalNode)
+		if !ok {
+			return false
+		}
+		if verifEvictableLeaf(n) {
+			return true
+		}
+		bitLength := bitDepth + n.LabelBitLength
+		if k.BitLength() <= bitLength {
+			return false
+		}
+		if k.GetBit(bitLength) {
+			p = n.Right
+		} else {
+			p = n.Left
+		}
+		bitDepth = bitLength
+	}
+	return false
+}
